@@ -264,6 +264,10 @@ def run_case(case, ctx):
     # absent ids outside the range of the vector's dtype must stay absent (no wrap-around)
     p0 = ids_present[0]
     subsets = subsets + [[65536 + p0], [2 ** 32 + p0, ids_present[-1]], [-1], [p0 - 65536, -(2 ** 32) + p0]]
+    # long requests (dozens of ids) that also name absent negative ids: nothing is selected for those
+    if not has_neg and ids_present[-1] < 5000 and not long_:
+        top = ids_present[-1]
+        subsets = subsets + [list(range(-1, 40)), [-5] + list(range(36)), [-(top + 1), -top, -1] + list(range(top + 1, top + 34))]
     if has_neg:
         subsets = [s_ for s_ in subsets if all(-1 <= x for x in s_)] + [[-1, ids_present[-1]]]
     rng = np.random.default_rng(case['rot'])
@@ -338,6 +342,28 @@ def run_case(case, ctx):
         d = same(rr.value, exp, dtype=False)
         if d:
             ctx.violation('index_of_mismatch', case, d, feats)
+    # a run of calls whose largest lookup id grows (and shrinks) by one from call to call
+    if case['rot'] % 16 == 3:
+        for top_ in list(range(1, 20)) + list(range(20, 0, -1)) + [3, 4, 5, 4, 8, 16, 17]:
+            lk3 = np.arange(top_ + 1)[::-1].copy()
+            arr3 = np.r_[np.arange(top_ + 1), top_, 0, -1]
+            rr = call(pa._index_of, arr3, lk3)
+            exp3 = np.r_[top_ - np.arange(top_ + 1), 0, top_, -1]
+            if not rr.ok or same(rr.value, exp3, dtype=False):
+                ctx.violation('index_of_mismatch' if rr.ok else 'raised', dict(case, lookup_top=top_), '_index_of in a run of calls, lookup %r: %s' % (
+                    lk3.tolist(), rr.exc if not rr.ok else same(rr.value, exp3, dtype=False)), dict(feats, function='_index_of', call_history=True), tb=rr.tb)
+                break
+    # callers that run with strict floating-point settings (errors instead of warnings): means of finite values raise nothing
+    if case['rot'] % 8 == 5 and len(ids_present) >= 1:
+        import warnings
+        vals_ = np.arange(n) * 1.5 + 1
+        exp_m = np.array([vals_[np.asarray(sc) == c].mean() for c in ids_present])
+        with np.errstate(all='raise'), warnings.catch_warnings():
+            warnings.simplefilter('error')
+            rr = call(pa.grouped_mean, vals_, sc)
+        if not rr.ok or same(rr.value, exp_m, dtype=False, rtol=1e-12):
+            ctx.violation('raised' if not rr.ok else 'grouped_mean_mismatch', case, 'grouped_mean under np.errstate(all="raise") and warnings as errors: %s' % (
+                rr.exc if not rr.ok else same(rr.value, exp_m, dtype=False, rtol=1e-12)), dict(feats, function='grouped_mean', strict_fp=True), tb=rr.tb)
     # a lookup that is a permutation of 0..m-1 (every id once, no gap): positions, not values, are returned - also when
     # the first and the last entry are in place
     m_ = 4 + case['rot'] % 5
